@@ -4,7 +4,7 @@ import json, sys, collections
 pid, tier = sys.argv[1], (sys.argv[2] if len(sys.argv) > 2 else "quick")
 pat = sys.argv[3] if len(sys.argv) > 3 else ""
 n = int(sys.argv[4]) if len(sys.argv) > 4 else 2
-rows = [json.loads(l) for l in open("/verif/out/last/%s-%s.viol.jsonl" % (pid, tier))]
+rows = [json.loads(l) for l in open(__import__("os").environ.get("VERIF_OUT", "/verif") + "/out/last/%s-%s.viol.jsonl" % (pid, tier))]
 c = collections.Counter(r["sig"] for r in rows)
 for sig, k in c.most_common():
     if pat and pat not in sig:
